@@ -119,7 +119,8 @@ BIN_CFGS = [(2, 0.0, 2.0), (4, -1.0, 1.0), (3, 0.0, 3.0), (1, -1.0, 1.0), (10, 0
             (3, 1 / 3, 2 / 3), (5, 5.0, 5.5), (40, 1e9, 1e9 + 1), (7, -0.7, 0.7), (6, 0.1, 0.7), (9, -1e-3, 1e-3),
             (3, -1e30, 1e30), (2, 1e-300, 3e-300), (12, 0.0, 1.2), (5, -2.5, 0.05)]
 SPARSE_CFGS = [(1.0, 0.0), (0.5, -0.25), (0.1, 0.0), (1 / 3, 0.05), (0.7, -0.35), (1e-3, 1.0), (3.0, 1e9), (1e9, 0.5)]
-CENTRAL_CFGS = [[0.0, 1.0, 3.0], [-0.1, 0.2, 0.7], [1 / 3, 2 / 3, 1.0], [1e9, 1e9 + 1, 1e9 + 3], [-1.0, 1.0]]
+CENTRAL_CFGS = [[0.0, 1.0, 3.0], [-0.1, 0.2, 0.7], [1 / 3, 2 / 3, 1.0], [1e9, 1e9 + 1, 1e9 + 3], [-1.0, 1.0],
+                [3.0, 0.0, 1.0], [0.7, -0.1, 0.2]]
 IRR_CFGS = [[0.0, 1.0], [-1.0, 0.5, 2.0], [0.1, 0.2, 0.3], [1 / 3, 2 / 3], [1e9, 1e9 + 1]]
 
 
@@ -180,7 +181,9 @@ def sweep_one(kind, cfg, x, path):
         h = hg.Stack(list(cfg), q, val)
     w = 0.5
     try:
-        if path in ("fill", "fill-generic"):
+        if path.startswith("fill:"):
+            h.fill({"x": as_type(x, path[5:])}, w)
+        elif path in ("fill", "fill-generic"):
             h.fill({"x": x}, w)
         elif path == "numpy-fast":
             h.fill.numpy({"x": np.array([x, x])}, 1)
@@ -207,6 +210,10 @@ def sweep_one(kind, cfg, x, path):
         return out
     # where it landed must be consistent with the specified partition wherever arithmetic cannot blur it
     name = list(hit)[0]
+    if path == "fill:numpy.float32":
+        # NumPy compares a float32 scalar with the (Python float) edges in float32 precision: which side of an edge that
+        # is not a float32 number the datum falls is not fixed by the property; only "exactly one slot" is asserted
+        return out
     if math.isnan(x):
         exp = "nanflow"
     elif kind == "Bin":
@@ -218,6 +225,33 @@ def sweep_one(kind, cfg, x, path):
     if exp is None and kind == "Bin" and not name.startswith("bin"):
         out.append(FW.violation(PROP, "sweep", "%s %s" % (kind, path), "in-range-datum-in-flow", args, {"got": name}))
     return out
+
+
+NUMERIC_TYPES = ("int", "bool", "numpy.float64", "numpy.float32", "numpy.int64", "Fraction")
+
+
+def as_type(x, tname):
+    """x as another numeric type with exactly the same value, or None where that type has no such value."""
+    import fractions
+
+    if tname == "numpy.float64":
+        return np.float64(x)
+    if tname == "numpy.float32":
+        y = np.float32(x)
+        return y if (math.isnan(x) or float(y) == x) else None
+    if not math.isfinite(x):
+        return None
+    if tname == "Fraction":
+        return fractions.Fraction(x)
+    if x != int(x) or abs(x) >= 2 ** 62:
+        return None
+    if tname == "int":
+        return int(x)
+    if tname == "numpy.int64":
+        return np.int64(int(x))
+    if tname == "bool":
+        return bool(x) if x in (0.0, 1.0) else None
+    raise ValueError(tname)
 
 
 def sweep_items():
@@ -246,6 +280,12 @@ def _sweep(task):
             acc.add(sweep_one(kind, cfg, x, path))
             acc.n("sweep_probes")
             acc.distinct("sweep", FW.hkey((kind, repr(cfg), repr(A.show(x)), path)))
+        for tname in NUMERIC_TYPES:
+            if as_type(x, tname) is None:
+                continue
+            acc.add(sweep_one(kind, cfg, x, "fill:" + tname))
+            acc.n("sweep_probes")
+            acc.n("sweep_probes_other_numeric_types")
     acc.n("sweep_configurations")
     return acc.freeze_sets()
 
@@ -259,7 +299,7 @@ def trees(tier):
         # one configuration per primitive at depth 2 keeps the quick tier short; thorough takes them all
         seen_types, keep = set(), []
         for s in t:
-            k = (s["t"], s.get("v", {}).get("t") if s["t"] in S.UNARY else tuple(c["t"] for c in (
+            k = (s["t"], s.get("range"), s.get("v", {}).get("t") if s["t"] in S.UNARY else tuple(c["t"] for c in (
                 s["ch"].values() if isinstance(s["ch"], dict) else s["ch"])) if "ch" in s else None)
             if k in seen_types:
                 continue
@@ -320,6 +360,9 @@ def replay(driver, args):
     hist = [tuple(op) for op in args["history"]]
     out = []
     pool, refs = X.replay(spec, [], menu)
+    check_state(spec, pool, refs, [], menu, out)
+    if out:
+        return out
     for n in range(len(hist)):
         try:
             X.apply_op(spec, pool, refs, hist[n], menu)
